@@ -40,6 +40,9 @@ type Contract struct {
 	Ints      string // "", bv, math
 	Pure      bool
 	PureHeap  bool // pure but reads the heap (epoch-dependent)
+	PerReturn bool // postconditions are checked at each return separately
+	Opaque    bool // pure function used as an uninterpreted symbol by other functions (its definition is only unfolded in lemmas)
+	Uses      []string // lemmas (proved separately) assumed at entry
 	Trusted   bool
 	Safety    bool
 	Inline    bool
@@ -85,7 +88,7 @@ type ContractSet struct {
 }
 
 var clauseKeywords = map[string]bool{
-	"prop": true, "ints": true, "pure": true, "trusted": true, "safety": true, "inline": true, "noreturn": true,
+	"prop": true, "ints": true, "pure": true, "uses": true, "per-return": true, "trusted": true, "safety": true, "inline": true, "noreturn": true,
 	"benign": true, "assume-benign": true, "modifies": true, "nullable": true, "nonnil": true, "requires": true, "ensures": true,
 	"loop": true, "decreases": true, "call": true, "cover": true, "define": true, "summary": true,
 	"bounded": true, "replay": true, "fresh": true, "note": true, "theory": true,
@@ -280,6 +283,13 @@ func (cs *ContractSet) loadFile(path, pkg string, external bool) error {
 			if rest == "heap" {
 				cur.PureHeap = true
 			}
+			if rest == "opaque" {
+				cur.Opaque = true
+			}
+		case "per-return":
+			cur.PerReturn = true
+		case "uses":
+			cur.Uses = append(cur.Uses, strings.Fields(rest)...)
 		case "trusted":
 			cur.Trusted = true
 		case "safety":
